@@ -249,6 +249,23 @@ def _apply(obj, op, cfg, held=None):
             if op == "interp":
                 f = obj.recovery_factor_interpolator()
                 out = np.array(f(PROBE), dtype=float)
+                # the caller re-uses ONE query buffer (overwritten in place between two evaluations): the second
+                # answer belongs to the buffer's current contents - judged against the harness's own linear
+                # interpolation of (time, recovery), because a fresh object would share any per-query memo
+                try:
+                    q_ = 0.9 * PROBE + 0.001  # (a query the interpolator has not seen yet)
+                    f(q_)
+                    q_ *= 0.5
+                    q_ += 0.013
+                    second_ = np.array(f(q_), dtype=float)
+                    t_, r_ = np.asarray(obj.time, dtype=float), np.asarray(obj.recovery, dtype=float)
+                    if len(t_) >= 2 and np.all(np.diff(t_) > 0) and np.all(np.isfinite(r_)):
+                        own_ = np.interp(q_, t_, r_, left=0.0, right=float(r_[-1]))
+                        if float(np.max(np.abs(second_ - own_))) > 1e-12 * max(1.0, float(np.max(np.abs(r_)))):
+                            BUFFER_REUSE.append({"max_abs": float(np.max(np.abs(second_ - own_)))})
+                        BUFFER_REUSE_CHECKED[0] += 1
+                except Exception:  # noqa: BLE001  (the plain evaluation above is what the history monitor judges)
+                    pass
                 if held is not None:
                     held.append((f, out.copy()))
                 return ("ok", out)
@@ -380,7 +397,22 @@ def _fluid_edit_case(ck, desc):
     return True, {"edit": desc["edit"]}
 
 
+BUFFER_REUSE = []
+BUFFER_REUSE_CHECKED = [0]
+
+
 def _run_case(ck, desc):
+    BUFFER_REUSE.clear()
+    n0 = BUFFER_REUSE_CHECKED[0]
+    out = _run_case_(ck, desc)
+    ck.count("interpolators_asked_twice_through_one_query_buffer", BUFFER_REUSE_CHECKED[0] - n0)
+    if BUFFER_REUSE:
+        ck.violation("repeat-call-same-result", {"what": "interpolator asked again through the same query buffer after the caller overwrote it in place", "max_abs_vs_linear_interpolation": BUFFER_REUSE[0]["max_abs"], "history": desc["seq"]}, desc)
+        BUFFER_REUSE.clear()
+    return out
+
+
+def _run_case_(ck, desc):
     if desc.get("tight"):
         return _tight_case(ck, desc)
     if desc.get("edit"):
